@@ -2,7 +2,6 @@ package res
 
 import (
 	"fmt"
-	"sync/atomic"
 	"testing"
 
 	"github.com/onflow/cadence"
@@ -149,9 +148,8 @@ func TestC48(t *testing.T) {
 		noAtreeValidation = true
 	}
 	var cnt c02Counters
-	var n atomic.Int64
 	rapid.Check(t, func(rt *rapid.T) {
-		if n.Add(1)%3 == 0 {
+		if resgen.FromRapid(rt).Intn(3) == 0 { // drawn from rapid so that a replay takes the same branch
 			h := resgen.Generate(resgen.FromRapid(rt), opts)
 			rec.Class("part:destroy-events")
 			checkHistory(rt, rec, h, &cnt, histMode{id: "C48", nontrivial: h.Stats.TreeDestroys >= 1, payloads: true, tolerateFR3: fr3})
